@@ -1,21 +1,21 @@
 \* generated by gencfg.py - edit there
 SPECIFICATION Spec
 CONSTANTS
- Kind = "counter"
- Replicas = {1, 2, 3, 4}
- MaxLocal = 6
+ Kind = "doc"
+ Replicas = {1}
+ MaxLocal = 2
  MoreLocal = {}
  MaxBatch = 1
  Keys = {"a"}
- Deltas = {1, 7, 13, 8, 5}
+ Deltas = {1}
  MaxTx = 0
- MaxBad = 0
+ MaxBad = 1
  MaxRestore = 0
  MaxBadUnit = 0
  DocNKeys = 1
- DocShapes = {"p"}
+ DocShapes = {"p", "a2", "o1"}
  DocMaxBatch = 1
- SimMode = TRUE
+ SimMode = FALSE
 INVARIANT Convergence
 INVARIANT RefOutcome
 INVARIANT NoDupIds
@@ -27,5 +27,8 @@ INVARIANT IdsUnique
 INVARIANT UnitsWellFormed
 INVARIANT PlainRefinement
 INVARIANT DocObjRule
-INVARIANT StepDump
+PROPERTY TxAbortIsNoop
+PROPERTY InvalidIsNoop
+VIEW StateView
+ACTION_CONSTRAINT EdgeDump
 CHECK_DEADLOCK FALSE
